@@ -630,10 +630,15 @@ class ispec(object):
                 logger.error("invalid endianess")
             b = b // Bits(istr[blen:], bitorder=1)
         # create & update instruction object:
+        saved_misc = None
         if i is None:
             i = iclass(bs)
         else:
             i.bytes += bs
+            # a hook may update misc (eg. consume a prefix) before rejecting:
+            saved_misc = dict(
+                (k, list(v) if isinstance(v, list) else v) for k, v in i.misc.items()
+            )
         saved_bytes = i.bytes[:-len(bs)]
         i.spec = self
         # set instruction attributes from directives, and then
@@ -658,6 +663,9 @@ class ispec(object):
         except InstructionError:
             # clean up:
             i.bytes = saved_bytes
+            if saved_misc is not None:
+                i.misc.clear()
+                i.misc.update(saved_misc)
             for k in iter(self.iattr.keys()):
                 delattr(i, k)
             raise InstructionError(i)
